@@ -3,7 +3,7 @@
    vh_bcj2 records, for one run over an abstract input Inputs[i] concretised to bytes,
      {"op":"Reset","inp":i}
      {"op":"Call","cap":n}                                   read() entered with a destination of n bytes
-     {"op":"Src","s":stream,"ret":k}                          a read of source `stream` delivered k bytes (-1: Interrupted)
+     {"op":"Src","s":stream,"ret":k}                          a read of source `stream` delivered k bytes (-1: Interrupted, -2: other error)
      {"op":"Ret","ret":k|-1,"err":code|null,"st":state,"rem":owed,"t3":byte,"need":0|1,"av":[4],"ex":[4]}
    The Ret event carries hook H7's view of the decoder after the call: state, temp[3], range < 2^24, bytes buffered
    and not consumed per stream, extra_read_sizes. Every field is compared with the model's state: the model
@@ -45,7 +45,8 @@ TNext ==
      /\ \/ Reset
         \/ (Is("Call") /\ CallP(Ev.cap) /\ UNCHANGED <<sch, hist>>)
         \/ (Is("Src") /\ Ev.ret >= 0 /\ rd.pc = "refill" /\ d.st = Ev.s /\ RefillP(Ev.ret) /\ UNCHANGED <<sch, hist>>)
-        \/ (Is("Src") /\ Ev.ret < 0 /\ rd.pc = "refill" /\ d.st = Ev.s /\ IntrP /\ UNCHANGED <<sch, hist>>)
+        \/ (Is("Src") /\ Ev.ret = -1 /\ rd.pc = "refill" /\ d.st = Ev.s /\ IntrP /\ UNCHANGED <<sch, hist>>)
+        \/ (Is("Src") /\ Ev.ret = -2 /\ rd.pc = "refill" /\ d.st = Ev.s /\ FailP /\ UNCHANGED <<sch, hist>>)
         \/ (Is("Ret") /\ RetMatches /\ UNCHANGED vars)
 
 TSpec == TInit /\ [][TNext]_tvars
@@ -55,5 +56,5 @@ Accepted ==
   /\ IF TLCGet(1) = Len(Rec) + 1 THEN TRUE
      ELSE Print(<<"REJECTED after event", TLCGet(1) - 1, "next", Rec[TLCGet(1)]>>, FALSE)
 \* property-level invariants evaluated in every reconstructed state
-TraceInv == TypeOK /\ OutputOK /\ BufInv /\ Complete
+TraceInv == TypeOK /\ OutputOK /\ BufInv /\ Complete /\ NoSpuriousError
 =============================================================================
